@@ -1,15 +1,293 @@
 /-
-  Theorems about the model of cJSON's text layer (Cjet.Cjson).  See docs/Cjson.md.
+  Theorems about the model of cJSON's text layer (`Cjet.Cjson`, tied to /repo/src/json/cJSON.c by
+  vlib/cjson_tie.py).  They support C06 (parser index arithmetic for arbitrary bytes), C09 (the parser never
+  reads past `length`) and C01/C02 (values pass through the daemon by parse then print).  See docs/Cjson.md.
+
+  Conventions: `parseWith inp guard fuel` = cJSON_ParseWithLengthOpts(inp, |inp|, &end, 0) of the model with an
+  explicit object-comma guard flag and recursion fuel; `parseG guard inp` = the same with fuel
+  `nestingLimit + 1`; `parse inp` = with the flag regenerated from the source tree.  Outcome `.oob i` = the C
+  code read `content[i]` with `i ≥ length`; `.nofuel` = the model ran out of recursion/loop fuel.
 -/
-import Cjet.Cjson
+import Cjet.Cjson.Loops
+import Cjet.Cjson.Writes
+import Cjet.Cjson.Roundtrip
+import Cjet.Cjson.Utf16
 
 namespace Cjet.Props.Cjson
 open Cjet Cjet.Cjson
+open Cjet.Generated.Cjson (nestingLimit numberBufSize objCommaGuard printNumberExact)
 
-/-- F64 (before the repair in /repo 07f45d0): without the guard in parse_object the text `{"a":1,` (7 bytes) makes
-    parse_string read `content[7]`. -/
+/-! ### every read is inside the buffer (C06, C09) -/
+
+/-- For EVERY byte string (valid JSON or not) and every fuel the parser with the object-comma guard never reads
+    `content[i]` with `i ≥ length`: no literal compare, no parse_hex4, no surrogate look-ahead, no unguarded
+    first byte of parse_string / parse_array. -/
+theorem parse_reads_in_bounds (inp : Bytes) (fuel i : Nat) : parseWith inp true fuel ≠ .oob i := by
+  intro h
+  unfold parseWith at h
+  split at h
+  · cases h
+  · cases h
+  · rename_i j hj; exact parseRes_not_oob inp fuel j hj
+  · cases h
+
+/-- The same for the source tree as it is: the guard flag regenerated from cJSON.c is `true` (a tree without the
+    guard makes this proof fail; the check then searches and finds the over-read input). -/
+theorem parse_reads_in_bounds_as_built (inp : Bytes) (i : Nat) : parse inp ≠ .oob i := by
+  have hg : objCommaGuard = true := rfl
+  unfold parse parseG
+  rw [hg]
+  exact parse_reads_in_bounds inp _ i
+
+/-- F64 (before the repair in /repo 07f45d0): without the guard in parse_object the text `{"a":1,` (7 bytes)
+    makes parse_string read `content[7]`. -/
 theorem parse_reads_in_bounds_counterexample_before_fix :
     (match parseG false [0x7B, 0x22, 0x61, 0x22, 0x3A, 0x31, 0x2C] with | .oob 7 => true | _ => false) = true := by
   decide +kernel
+
+/-- parse_string alone: its only read that can leave the buffer is the unguarded first one, and only when the
+    caller hands it an offset that is not inside the buffer. -/
+theorem parse_string_reads_in_bounds (inp : Bytes) (b : PB) (i : Nat) (h : parseString inp b = .oob i) :
+    inp.length ≤ b.off :=
+  parseString_oob h
+
+/-- The second pass of parse_string - including parse_hex4 and the look-ahead for the second half of a surrogate
+    pair - stays inside the buffer whenever the closing quote (offset `p + n`) does. -/
+theorem parse_hex4_reads_in_bounds (fuel p n : Nat) (rest : Bytes) (i : Nat) (h : n < rest.length) :
+    unesc fuel p n rest ≠ .oob i :=
+  unesc_not_oob fuel p n rest i (Or.inr h)
+
+example : (4 : Nat) < ([0x5C, 0x75, 0x30, 0x30, 0x22] : Bytes).length := by decide
+
+/-- `can_read(n) && strncmp(…, literal, n)` never reads past the end ("null", "true", "false", the BOM). -/
+theorem parse_literal_reads_in_bounds (inp : Bytes) (b : PB) (lit : Bytes) (i : Nat) : isLit inp b lit ≠ .oob i :=
+  isLit_not_oob inp b lit i
+
+/-- `end_parse` lies inside the message, the error position too. -/
+theorem parse_end_in_bounds (inp : Bytes) (g : Bool) (fuel : Nat) :
+    (∀ t e, parseWith inp g fuel = .ok t e → e ≤ inp.length) ∧
+    (∀ p, parseWith inp g fuel = .fail p → p < inp.length ∨ (inp = [] ∧ p = 0)) := by
+  constructor
+  · intro t e h
+    unfold parseWith at h
+    split at h
+    · rename_i t' b hb
+      simp only [Outcome.ok.injEq] at h
+      obtain ⟨_, rfl⟩ := h
+      exact (parseRes_ok hb).1
+    · cases h
+    · cases h
+    · cases h
+  · intro p h
+    unfold parseWith at h
+    split at h
+    · cases h
+    · simp only [Outcome.fail.injEq] at h
+      subst h
+      unfold errPos
+      split
+      · left; assumption
+      · split
+        · left; omega
+        · right
+          rename_i h1 h2
+          exact ⟨List.eq_nil_of_length_eq_zero (by omega), rfl⟩
+    · cases h
+    · cases h
+
+/-! ### parse_string never writes past its allocation (C06) -/
+
+/-- First pass found the closing quote after `n` bytes with `skipped` escapes; then whatever the second pass does
+    (success or failure, aligned with the first pass' view of the escapes or not), the bytes it stored plus the
+    terminating NUL are at most `allocation_length = n + 1 - skipped`; the allocation has one byte more. -/
+theorem parse_string_writes_in_bounds (body : Bytes) (n skipped p : Nat) (h : scanEnd body = some (n, skipped)) :
+    (unesc (n + 1) p n body).wlen + 1 ≤ n + 1 - skipped :=
+  unesc_fits_alloc h p
+
+example : scanEnd [0x5C, 0x75, 0x30, 0x30, 0x30, 0x5C, 0x5C, 0x22] = some (7, 2) := by decide
+
+/-- as seen by the caller of a successful parse_string -/
+theorem parse_string_result_fits (inp : Bytes) (b : PB) (s : StrOut) (b' : PB) (h : parseString inp b = .ok s b') :
+    s.written.length + 1 ≤ s.alloc :=
+  parseString_written_le h
+
+example : parseString [0x22, 0x5C, 0x6E, 0x22] ⟨0, 0⟩ = .ok ⟨[0x0A], 2⟩ ⟨4, 0⟩ := by rfl
+
+/-! ### nesting limit, termination -/
+
+/-- Fuel `nestingLimit + 1` (one per nested parse_value frame) always suffices, for every input: the recursion
+    never goes deeper, the loops never run longer than their bounds, and more fuel changes nothing. -/
+theorem parse_total (inp : Bytes) (g : Bool) (fuel : Nat) (hf : nestingLimit < fuel) :
+    parseWith inp g fuel = parseG g inp ∧ parseG g inp ≠ .nofuel := by
+  constructor
+  · unfold parseG parseWith
+    rw [parseRes_fuel_indep inp g fuel hf]
+  · intro h
+    unfold parseG parseWith at h
+    split at h
+    · cases h
+    · cases h
+    · cases h
+    · rename_i hn
+      exact parseRes_not_nofuel inp g _ (by omega) hn
+
+/-- Every tree the parser returns is nested at most CJSON_NESTING_LIMIT deep (deeper input is rejected). -/
+theorem nesting_bounded (inp : Bytes) (g : Bool) (fuel : Nat) (t : Tree) (e : Nat)
+    (h : parseWith inp g fuel = .ok t e) : t.depth ≤ nestingLimit := by
+  unfold parseWith at h
+  split at h
+  · rename_i t' b hb
+    simp only [Outcome.ok.injEq] at h
+    obtain ⟨rfl, _⟩ := h
+    exact (parseRes_ok hb).2.1
+  · cases h
+  · cases h
+  · cases h
+
+example : (match parseG true [0x5B, 0x5B, 0x5D, 0x5D] with | .ok t 4 => t.depth == 2 | _ => false) = true := by
+  decide +kernel
+
+/-- `input_buffer->depth` is balanced: back to 0 when the top-level value has been parsed. -/
+theorem depth_counter_restored (inp : Bytes) (g : Bool) (fuel : Nat) (t : Tree) (b : PB)
+    (h : parseRes inp g fuel = .ok t b) : b.depth = 0 :=
+  (parseRes_ok h).2.2
+
+example : parseRes [0x5B, 0x5D] true 3 = .ok (.arr []) ⟨2, 0⟩ := by rfl
+
+/-! ### strings survive print then parse exactly (C01, C02) -/
+
+/-- For every C string `s` (no NUL byte; every other byte value allowed: print_string_ptr copies bytes ≥ 0x20
+    except `"` and `\` - also 0x7F and everything ≥ 0x80 - and escapes the rest) parse_string gives back exactly
+    `s` from the text print_string_ptr produced, wherever that text stands in a buffer. -/
+theorem print_parse_string_roundtrip (s : Bytes) (hs : nulFree s) (inp : Bytes) (b : PB) (post : Bytes)
+    (hd : inp.drop b.off = printString s ++ post) :
+    ∃ a, parseString inp b = .ok ⟨s, a⟩ ⟨b.off + (printString s).length, b.depth⟩ :=
+  parseString_printString hs hd
+
+example : nulFree [0x01, 0x22, 0x5C, 0x7F, 0xFF] := by unfold nulFree; decide
+
+/-- the buffer size print_string_ptr computes (`output_length + sizeof("\"\"")`) is what it fills -/
+theorem print_string_length_exact (s : Bytes) : (printString s).length = s.length + escapeChars s + 2 := by
+  simp only [printString, List.length_cons, List.length_append, List.length_nil, escBody_length]
+
+/-! ### trees survive print then parse -/
+
+/-- Oracle form: `num` is the text print_number produces for a number token's value.  If every string of the tree
+    is a C string, every number prints as a complete number token (`NumTok`: what sprintf "%1.15g"/"%1.17g"
+    produces for a finite double) and the tree is not nested deeper than the limit, then parsing the printed
+    text gives the tree back (number tokens replaced by their printed text) and consumes the whole text. -/
+theorem print_parse_tree_roundtrip_given_number_oracle_partial (g : Bool) (num : Bytes → Bytes) (t : Tree)
+    (hp : t.Printable num) (hd : t.depth ≤ nestingLimit) :
+    parseG g (printValue num t) = .ok (t.mapNum num) (printValue num t).length := by
+  unfold parseG parseWith
+  rw [parseRes_printed g num t hp hd]
+
+example : (Tree.arr [.num [0x31], .str [0x61]]).Printable id := by
+  simp only [Tree.Printable, Tree.PrintableList, NumTok, id]
+  refine ⟨⟨by decide, by decide, by decide, 0x31, [], rfl, by decide⟩, by unfold nulFree; decide, trivial⟩
+
+/-- Printer output is valid for the parser: no failure, and the whole text is consumed. -/
+theorem printed_is_valid_json_text (g : Bool) (num : Bytes → Bytes) (t : Tree)
+    (hp : t.Printable num) (hd : t.depth ≤ nestingLimit) :
+    ∃ t', parseG g (printValue num t) = .ok t' (printValue num t).length :=
+  ⟨_, print_parse_tree_roundtrip_given_number_oracle_partial g num t hp hd⟩
+
+/-! ### numbers (the C library as an oracle) -/
+
+/-- With the repaired print_number (the 15-digit text is kept only when it scans back to the identical double),
+    a finite double survives print then parse bit for bit, under the single oracle hypothesis that
+    `strtod(sprintf("%1.17g", d)) = d` for finite `d`. -/
+theorem number_survives_print_parse_given_number_oracle_partial (o : NumOracle)
+    (h17 : ∀ d, isFinite d = true → o.scan (o.fmt17 d) = d) (d : UInt64) (hd : isFinite d = true) :
+    o.scan (printNumber true o d) = d := by
+  unfold printNumber
+  simp only [hd, Bool.not_true, Bool.false_eq_true, if_false, if_true]
+  split
+  · rename_i h; exact eq_of_beq h
+  · exact h17 d hd
+
+example : isFinite 0x3FD3333333333334 = true := by decide
+
+/-- the oracle values glibc gives around 0.3 -/
+def oracleNear03 : NumOracle where
+  fmt15 := fun _ => [0x30, 0x2E, 0x33]
+  fmt17 := fun _ => [0x30, 0x2E, 0x33, 0x30, 0x30, 0x30, 0x30, 0x30, 0x30, 0x30, 0x30, 0x30, 0x30, 0x30, 0x30, 0x30, 0x30, 0x30, 0x34]
+  scan := fun t => if t.length = 3 then 0x3FD3333333333333 else 0x3FD3333333333334
+  close := fun a b => a.toNat - b.toNat ≤ 1 && b.toNat - a.toNat ≤ 1
+
+/-- F65 (before the repair in /repo 2ab33d6): with the epsilon acceptance test 0.30000000000000004 was printed
+    as `0.3`, which scans to the neighbouring double. -/
+theorem number_print_counterexample_before_fix :
+    oracleNear03.scan (printNumber false oracleNear03 0x3FD3333333333334) ≠ 0x3FD3333333333334 := by
+  decide
+
+/-- the source tree under test has the exact acceptance test -/
+theorem print_number_is_exact_as_built : printNumberExact = true := rfl
+
+/-! ### \uXXXX decoding -/
+
+/-- The encoder at the end of utf16_literal_to_utf8 (shifts and masks) is the RFC 3629 table, and refuses exactly
+    the values above U+10FFFF. -/
+theorem utf8_encoder_correct (cp : Nat) :
+    utf8Encode cp = if cp ≤ 0x10FFFF then some (utf8Spec cp) else none :=
+  utf8Encode_eq cp
+
+/-- `\uXXXX` (four hex digits of either case, value outside D800..DFFF): six bytes consumed, the UTF-8 encoding
+    of the code point stored. -/
+theorem utf16_decoding_correct (p n : Nat) (d1 d2 d3 d4 : UInt8) (a1 a2 a3 a4 : Nat) (rest : Bytes) (hn : 6 ≤ n)
+    (h1 : hexVal d1 = some a1) (h2 : hexVal d2 = some a2) (h3 : hexVal d3 = some a3) (h4 : hexVal d4 = some a4)
+    (hv : ¬ (0xD800 ≤ hexValue4 a1 a2 a3 a4 ∧ hexValue4 a1 a2 a3 a4 ≤ 0xDFFF)) :
+    utf16 p n (0x5C :: 0x75 :: d1 :: d2 :: d3 :: d4 :: rest) = .ok (utf8Spec (hexValue4 a1 a2 a3 a4)) 6 := by
+  have hlt : hexValue4 a1 a2 a3 a4 < 0x10000 := hex4_lt (hex4_digits 0 [] h1 h2 h3 h4)
+  exact utf16_bmp p n rest hn h1 h2 h3 h4 hv hlt
+
+example : hexVal 0x32 = some 2 ∧ hexVal 0x30 = some 0 ∧ hexVal 0x41 = some 10 ∧ hexVal 0x63 = some 12 ∧
+    ¬ (0xD800 ≤ hexValue4 2 0 10 12 ∧ hexValue4 2 0 10 12 ≤ 0xDFFF) ∧ utf8Spec (hexValue4 2 0 10 12) = [0xE2, 0x82, 0xAC] := by
+  decide
+
+/-- A surrogate pair `\uD800..DBFF \uDC00..DFFF`: twelve bytes consumed, the UTF-8 encoding of the supplementary
+    code point stored. -/
+theorem utf16_decoding_correct_pair (p n : Nat) (d1 d2 d3 d4 e1 e2 e3 e4 : UInt8) (a1 a2 a3 a4 c1 c2 c3 c4 : Nat)
+    (rest : Bytes) (hn : 12 ≤ n)
+    (h1 : hexVal d1 = some a1) (h2 : hexVal d2 = some a2) (h3 : hexVal d3 = some a3) (h4 : hexVal d4 = some a4)
+    (g1 : hexVal e1 = some c1) (g2 : hexVal e2 = some c2) (g3 : hexVal e3 = some c3) (g4 : hexVal e4 = some c4)
+    (hh : 0xD800 ≤ hexValue4 a1 a2 a3 a4 ∧ hexValue4 a1 a2 a3 a4 ≤ 0xDBFF)
+    (hl : 0xDC00 ≤ hexValue4 c1 c2 c3 c4 ∧ hexValue4 c1 c2 c3 c4 ≤ 0xDFFF) :
+    utf16 p n (0x5C :: 0x75 :: d1 :: d2 :: d3 :: d4 :: 0x5C :: 0x75 :: e1 :: e2 :: e3 :: e4 :: rest) =
+      .ok (utf8Spec (0x10000 + (hexValue4 a1 a2 a3 a4 - 0xD800) * 1024 + (hexValue4 c1 c2 c3 c4 - 0xDC00))) 12 :=
+  utf16_pair p n rest hn h1 h2 h3 h4 g1 g2 g3 g4 hh hl
+
+example : (0xD800 ≤ hexValue4 13 8 3 13 ∧ hexValue4 13 8 3 13 ≤ 0xDBFF) ∧
+    (0xDC00 ≤ hexValue4 13 14 0 0 ∧ hexValue4 13 14 0 0 ≤ 0xDFFF) ∧
+    utf8Spec (0x10000 + (hexValue4 13 8 3 13 - 0xD800) * 1024 + (hexValue4 13 14 0 0 - 0xDC00)) = [0xF0, 0x9F, 0x98, 0x80] := by
+  decide
+
+/-- A low surrogate that comes first is refused. -/
+theorem utf16_lone_low_rejected (p n : Nat) (d1 d2 d3 d4 : UInt8) (a1 a2 a3 a4 : Nat) (rest : Bytes)
+    (h1 : hexVal d1 = some a1) (h2 : hexVal d2 = some a2) (h3 : hexVal d3 = some a3) (h4 : hexVal d4 = some a4)
+    (hv : 0xDC00 ≤ hexValue4 a1 a2 a3 a4 ∧ hexValue4 a1 a2 a3 a4 ≤ 0xDFFF) :
+    utf16 p n (0x5C :: 0x75 :: d1 :: d2 :: d3 :: d4 :: rest) = .fail :=
+  utf16_lone_low p n rest h1 h2 h3 h4 hv
+
+example : 0xDC00 ≤ hexValue4 13 12 0 0 ∧ hexValue4 13 12 0 0 ≤ 0xDFFF := by decide
+
+/-- A high surrogate that is not followed by `\u` + a low surrogate is refused, whatever follows (end of the
+    string, other bytes, another escape, `\u` with non-hex digits, `\u` with a non-low value). -/
+theorem utf16_lone_high_rejected (p n : Nat) (d1 d2 d3 d4 : UInt8) (a1 a2 a3 a4 : Nat) (rest : Bytes)
+    (h1 : hexVal d1 = some a1) (h2 : hexVal d2 = some a2) (h3 : hexVal d3 = some a3) (h4 : hexVal d4 = some a4)
+    (hh : 0xD800 ≤ hexValue4 a1 a2 a3 a4 ∧ hexValue4 a1 a2 a3 a4 ≤ 0xDBFF)
+    (hrest : ∀ e1 e2 e3 e4 c1 c2 c3 c4 r', rest = 0x5C :: 0x75 :: e1 :: e2 :: e3 :: e4 :: r' →
+      hexVal e1 = some c1 → hexVal e2 = some c2 → hexVal e3 = some c3 → hexVal e4 = some c4 →
+      ¬ (0xDC00 ≤ hexValue4 c1 c2 c3 c4 ∧ hexValue4 c1 c2 c3 c4 ≤ 0xDFFF))
+    (hlen : n < (0x5C :: 0x75 :: d1 :: d2 :: d3 :: d4 :: rest).length) :
+    utf16 p n (0x5C :: 0x75 :: d1 :: d2 :: d3 :: d4 :: rest) = .fail :=
+  utf16_lone_high p n rest h1 h2 h3 h4 hh hrest hlen
+
+example : utf16 1 6 [0x5C, 0x75, 0x44, 0x38, 0x30, 0x30, 0x22] = .fail := by decide
+
+/-- cJSON's leniency, stated so that it is visible: a non-hex digit makes parse_hex4 answer 0, so `\uZZZZ` is
+    taken as `\u0000` (one NUL byte stored, which ends the C string). -/
+theorem utf16_invalid_hex_is_nul :
+    utf16 1 6 [0x5C, 0x75, 0x5A, 0x5A, 0x5A, 0x5A, 0x22] = .ok [0] 6 := by decide
 
 end Cjet.Props.Cjson
